@@ -150,6 +150,10 @@ def contrib(model, st, t, time=None):
 def pred_C02(model, params, run):
     out = []
     absn = set(params["absence"])
+    # off the dyadic grid the code computes with floats: equalities hold up to rounding, and "no work left"
+    # is what the code documents (remaining < error_tol)
+    tol = Fr(1, 10 ** 9) if model.get("decimal") else Fr(0)
+    etol = F(params.get("errorTol") or 1e-10) if model.get("decimal") else Fr(0)
     for it in steps(run):
         if "performed" not in it:
             continue
@@ -160,7 +164,7 @@ def pred_C02(model, params, run):
             active = pre["tstate"][t] == WORKING and (working or (params["autoFlag"] and tk["isAuto"]))
             if active:
                 c = contrib(model, pre, t, time=(pre["time"] if working else None))
-                if before - after != c:
+                if abs(before - after - c) > tol:
                     out.append(viol("C02", "remaining work did not decrease by the contribution", time=pre["time"], task=t,
                                     before=str(before), after=str(after), contribution=str(c)))
                     return out
@@ -184,7 +188,7 @@ def pred_C02(model, params, run):
         if prev is not None and b == "finished":
             for t in range(model["nT"]):
                 if st["tstate"][t] == FINISHED and prev["tstate"][t] != FINISHED:
-                    if not (prev["tstate"][t] == WORKING and F(prev["rem"][t]) <= 0):
+                    if not (prev["tstate"][t] == WORKING and F(prev["rem"][t]) <= etol):
                         out.append(viol("C02", "task finished before its remaining work reached zero", time=st["time"], task=t))
                         return out
         prev = st
@@ -785,11 +789,11 @@ def pred_C10(model, params, run):
                         out.append(viol("C10", "task %d progressed at project absence step %d" % (t, k)))
                         return out
                 if tk["isAuto"] and params["autoFlag"] and st["tstate"][t] == WORKING and it["costed"]["tstate"][t] == WORKING:
-                    if F(pre["rem"][t]) - F(st["rem"][t]) != F(tk["autoRate"]):
+                    if abs(F(pre["rem"][t]) - F(st["rem"][t]) - F(tk["autoRate"])) > (Fr(1, 10 ** 9) if model.get("decimal") else 0):
                         out.append(viol("C10", "automatic task %d did not progress at absence step %d although the flag is set" % (t, k)))
                         return out
                 if tk["isAuto"] and tk["comp"] is None and params["autoFlag"] and pre["tstate"][t] == READY:
-                    if F(pre["rem"][t]) - F(st["rem"][t]) != F(tk["autoRate"]):
+                    if abs(F(pre["rem"][t]) - F(st["rem"][t]) - F(tk["autoRate"])) > (Fr(1, 10 ** 9) if model.get("decimal") else 0):
                         out.append(viol("C10", "READY automatic task %d did not start and progress at absence step %d although the flag is set" % (t, k)))
                         return out
                 if len(st["allocW"][t]) > len(pre["allocW"][t]) or len(st["allocF"][t]) > len(pre["allocF"][t]):
